@@ -9,7 +9,7 @@ variable {s s' : State} {g : G} {j : J} {k : Nat}
 /-- the monitor sees the return of an `nng_aio_abort` call that has done its work -/
 theorem rel_abortRet (hR : R (k + 1) s g j) : R k s g (AioSpec.step j .abortRet) := by
   rw [jstep_abortRet hR.base.err hR.base.nfree]
-  rcases hR with ⟨⟨b1,b2,b3,b4,b5,b6,b7,b8,b9,b10,b11,b12,b13,b14,b15,b16,b17,b18⟩, hh, ht⟩
+  rcases hR with ⟨⟨b1,b2,b3,b4,b5,b6,b7,b8,b9,b10,b11,b12,b13,b14,b15,b16,b17,b18,b19,b20⟩, hh, ht⟩
   split
   · rename_i hle
     have ha : s.aborts = [] := List.eq_nil_of_length_eq_zero (by omega)
